@@ -29,9 +29,9 @@ Lemma registered_fun : forall s i o o', Inv s -> registered s i o -> registered 
 Proof.
   intros s i o o' Hinv [A | [A | (x & Hx & A)]] [B | [B | (y & Hy & B)]].
   - congruence.
-  - assert (dget (s_weak s) i = None) by (apply (inv_disj s Hinv); congruence). congruence.
+  - destruct (inv_disj s Hinv i o A) as [X | (X & _)]; congruence.
   - destruct (mov_core s y i o' Hinv Hy B) as (_ & S & _). congruence.
-  - assert (dget (s_weak s) i = None) by (apply (inv_disj s Hinv); congruence). congruence.
+  - destruct (inv_disj s Hinv i o' B) as [X | (X & _)]; congruence.
   - congruence.
   - destruct (mov_core s y i o' Hinv Hy B) as (_ & _ & W & _). congruence.
   - destruct (mov_core s x i o Hinv Hx A) as (_ & S & _). congruence.
